@@ -38,11 +38,13 @@ def showInner (i : Inner Float) : String :=
   let a := if i.attempted then "1" else "0"
   s!"{i.id} {showOrder i.order} {a}"
 
-def parseQuotes : Nat → List String → List (Nat × Quote Float) × List String
+/-- quotes are keyed by the symbol *string*; the exchange looks an order's quote up under `asset.to_string()`, so a
+    symbol such as "07" or "+3" is not the quote of asset 7 or 3 -/
+def parseQuotes : Nat → List String → List (String × Quote Float) × List String
   | 0, rest => ([], rest)
   | n + 1, sym :: b :: a :: d :: rest =>
     let (qs, r) := parseQuotes n rest
-    ((sym.toNat!, ⟨f64 b, f64 a, d.toInt!⟩) :: qs, r)
+    ((sym, ⟨f64 b, f64 a, d.toInt!⟩) :: qs, r)
   | _, rest => ([], rest)
 
 def showFill (f : Fill Float) : String :=
@@ -73,7 +75,8 @@ def step (s : Jura Float) (ts : List String) : Jura Float × String :=
       if n.toNat! != s.buffer.length || !sellFirstPerm n.toNat! idx sellAt then (s, "REJECT-ADMISSION not-sell-first")
       else
         let adm := idx.filterMap (fun i => s.buffer[i]?)
-        let quotes : Nat → Option (Quote Float) := fun a => (qs.find? (fun q => q.1 == a)).map (·.2)
+        -- a later entry for the same symbol overwrites an earlier one (`HashMap::insert`)
+        let quotes : Nat → Option (Quote Float) := fun a => (qs.reverse.find? (fun q => q.1 == toString a)).map (·.2)
         let (s', fills, kids, pn) := s.tick quotes adm
         if pn then (s', "PANIC")
         else
